@@ -32,7 +32,7 @@ pub struct Obs {
 
 impl Obs {
     pub fn sum(&self, e: usize) -> usize {
-        self.entries.iter().map(|x| e + x.kheap + x.vheap).sum()
+        usize::try_from(self.entries.iter().map(|x| (e + x.kheap + x.vheap) as u128).sum::<u128>()).unwrap_or(usize::MAX)
     }
     pub fn pos(&self, id: u32) -> Option<usize> {
         self.entries.iter().position(|x| x.id == id)
